@@ -135,7 +135,6 @@ structure St where
   nextTid : Nat := 1
   timer : Timer := {}
   lvl : List (Nat × Tid) := []   -- level's notify table: (name, waiter) in registration order
-  diag : List Diag := []
   deriving Repr, DecidableEq, Inhabited
 
 /-- what a step may read besides the state -/
@@ -161,9 +160,6 @@ def vmRunning (s : St) (t : Tid) : Bool :=
 
 /-- one clock reading has been taken (`verif::now_ms`) -/
 def tick (E : Env) (s : St) : St := { s with now := s.now + E.inc s.reads, reads := s.reads + 1 }
-
-/-- `if (stream) *stream << …` -/
-def emit (on : Bool) (d : Diag) (s : St) : St := { s with diag := s.diag ++ (if on then [d] else []) }
 
 /-- undefined behaviour reached (null `m_CurrentThread` dereferenced, dangling timer element): the
     machine stops where it is -/
@@ -243,16 +239,14 @@ def endThread (s : St) (t : Tid) : St :=
       | none => s
     | none => s
 
-/-- `HandleScriptExceptionAbort(info); throw;` followed by `~ScriptExecutionStack` -/
-def vmAbort (E : Env) (s : St) (t : Tid) (rest : List Frame) : St :=
-  let s := emit E.cfg.sVerb (.verbFrame s.depth) s
-  let s := emit (E.cfg.sErr && E.cfg.dev) .errPos s
+/-- `HandleScriptExceptionAbort(info); throw;` followed by `~ScriptExecutionStack`
+    (what it writes to the Verbose / Error streams: `diagOf`) -/
+def vmAbort (s : St) (t : Tid) (rest : List Frame) : St :=
   { s with threads := upd s.threads t (fun th => { th with vs := .idling }),
            depth := s.depth - 1, stack := rest }
 
-/-- `catch (CommandOverflow&)` with protection off: log, new deadline, `Process` again -/
+/-- `catch (CommandOverflow&)` with protection off: log (`diagOf`), new deadline, `Process` again -/
 def vmExtend (E : Env) (s : St) (t : Tid) (rest : List Frame) : St :=
-  let s := emit E.cfg.sDbg .dbgUpdate s
   let dl := s.now + E.cfg.maxExec
   let s := tick E s
   let ct := s.now
@@ -276,14 +270,13 @@ def unwindFrame (E : Env) (s : St) (e : Exc) (f : Frame) (rest : List Frame) : S
   match f with
   | .vm t dl _ _ n =>
     match e with
-    | .overflow => if E.cfg.prot then vmAbort E s t rest else vmExtend E s t rest
+    | .overflow => if E.cfg.prot then vmAbort s t rest else vmExtend E s t rest
     | .scriptError =>
       -- catch (ScriptExceptionBase&) { HandleScriptException } ; while (!doneProcessing) → Process again
-      let s := emit E.cfg.sWarn .warn s
       let ct := s.now
       let s := tick E s
       { s with exc := none, stack := .vm t dl ct false n :: rest }
-    | _ => vmAbort E s t rest
+    | _ => vmAbort s t rest
   | .sei t saved =>
     -- catch (...) { m_CurrentThread = currentThread; m_PreviousThread = previousThread; throw; }
     { s with cur := safe s saved, prev := safe s (some t), stack := rest }
@@ -307,7 +300,7 @@ def execOp (E : Env) (s : St) (t : Tid) (th : Thr) (dl ct n : Nat) (rest : List 
   | .loopTest ex =>
     if th.cnt = 0 then { s with threads := upd s.threads t (fun x => { x with pc := ex }), stack := me :: rest }
     else { s with threads := upd s.threads t (fun x => { x with pc := th.pc + 1, cnt := th.cnt - 1 }), stack := me :: rest }
-  | .print m => { emit true (.out m) (adv s) with stack := me :: rest }
+  | .print _ => { adv s with stack := me :: rest }
   | .raise ab => { adv s with stack := me :: rest, exc := some (if ab then .abort else .scriptError) }
   | .done => { endThread s t with stack := me :: rest }
   | .wait ms =>
@@ -390,6 +383,34 @@ def runFrame (E : Env) (s : St) (f : Frame) (rest : List Frame) : St :=
       else setUb s                      -- a timer element is a raw pointer
   | .ctxExec => { s with stack := rest }
 
+/-- What the step taken from `s` writes to the streams.  Every write in the transcribed code has the
+    form `if (stream) *stream << …` (after fixes e689d04, 56147d9) and no other effect, so the
+    transition function `step` below does not read the stream flags at all; the guards are here.
+    * `HandleScriptExceptionAbort`: Verbose "----FRAME: <depth>", Error source position (developer mode)
+    * `catch (CommandOverflow&)` with protection off: Debug "Update of script position"
+    * `HandleScriptException`: Warn "^~^~^ Script Warning"
+    * `println`: Output -/
+def diagOf (E : Env) (s : St) : List Diag :=
+  if s.ub then [] else
+  match s.stack, s.exc with
+  | .vm _ _ _ _ _ :: _, some .overflow =>
+    if E.cfg.prot then
+      (if E.cfg.sVerb then [.verbFrame s.depth] else []) ++ (if E.cfg.sErr && E.cfg.dev then [.errPos] else [])
+    else (if E.cfg.sDbg then [.dbgUpdate] else [])
+  | .vm _ _ _ _ _ :: _, some .scriptError => if E.cfg.sWarn then [.warn] else []
+  | .vm _ _ _ _ _ :: _, some _ =>
+    (if E.cfg.sVerb then [.verbFrame s.depth] else []) ++ (if E.cfg.sErr && E.cfg.dev then [.errPos] else [])
+  | .vm t _ _ false _ :: _, none =>
+    match find s.threads t with
+    | some th =>
+      if th.vs == .running then
+        match (E.prog.getD th.label []).getD th.pc .done with
+        | .print m => [.out m]
+        | _ => []
+      else []
+    | none => []
+  | _, _ => []
+
 def step (E : Env) (s : St) : St :=
   if s.ub then s else
   match s.stack with
@@ -404,6 +425,13 @@ def run (E : Env) : Nat → St → St
   | k + 1, s => run E k (step E s)
 
 def halted (s : St) : Bool := s.stack.isEmpty || s.ub
+
+/-- the machine together with what it has written to the streams -/
+def stepD (E : Env) (x : St × List Diag) : St × List Diag := (step E x.1, x.2 ++ diagOf E x.1)
+
+def runD (E : Env) : Nat → St × List Diag → St × List Diag
+  | 0, x => x
+  | k + 1, x => runD E k (stepD E x)
 
 /-! ### host operations (each starts in a halted state and pushes the outermost frames) -/
 
@@ -436,8 +464,8 @@ def fresh (E : Env) (s : St) : St :=
   tick E s'
 
 /-- run to completion with fuel; `none` = still running (the host call did not return) -/
-def runToHalt (E : Env) : Nat → St → Option St
-  | 0, s => if halted s then some s else none
-  | k + 1, s => if halted s then some s else runToHalt E k (step E s)
+def runToHalt (E : Env) : Nat → St × List Diag → Option (St × List Diag)
+  | 0, x => if halted x.1 then some x else none
+  | k + 1, x => if halted x.1 then some x else runToHalt E k (stepD E x)
 
 end Morfuse.Unwind
